@@ -393,15 +393,26 @@ func checkC16(e *core.Env) {
 		var cc grpc.ClientConnInterface
 		var closeFn func()
 		tu, ts := tl.unaryInt(log, &seen), tl.streamInt(log, &seen)
+		// the same description is often served under a second name as well (an alias kept for old clients): a
+		// shallow copy whose method tables are the original's
+		alias := *final
+		alias.ServiceName = final.ServiceName + "Alias"
+		withAlias := r.Intn(2) == 0
+		regBoth := func(reg grpc.ServiceRegistrar) {
+			reg.RegisterService(final, svc)
+			if withAlias {
+				reg.RegisterService(&alias, svc)
+			}
+		}
 		switch carrier {
 		case "inproc":
 			ch := &inprocgrpc.Channel{}
 			if r.Intn(2) == 0 {
 				ch.WithServerUnaryInterceptor(tu).WithServerStreamInterceptor(ts)
-				ch.RegisterService(final, svc)
+				regBoth(ch)
 			} else {
 				// configured after the services were registered: the interceptors apply all the same
-				ch.RegisterService(final, svc)
+				regBoth(ch)
 				ch.WithServerUnaryInterceptor(tu).WithServerStreamInterceptor(ts)
 			}
 			cc = ch
@@ -411,11 +422,11 @@ func checkC16(e *core.Env) {
 			var c *Carrier
 			if r.Intn(2) == 0 {
 				s := httpgrpc.NewServer(httpgrpc.WithBasePath(base), httpgrpc.WithServerUnaryInterceptor(tu), httpgrpc.WithServerStreamInterceptor(ts))
-				s.RegisterService(final, svc)
+				regBoth(s)
 				c = httpCarrier("http", nil, s, base, false, false)
 			} else {
 				mreg := grpchan.HandlerMap{}
-				mreg.RegisterService(final, svc)
+				regBoth(mreg)
 				mux := http.NewServeMux()
 				httpgrpc.HandleServices(mux.HandleFunc, base, mreg, tu, ts)
 				c = httpCarrier("http", nil, mux, base, false, false)
@@ -629,6 +640,29 @@ func checkC16(e *core.Env) {
 					got1 = fs.sent[0]
 				}
 			default:
+				if withAlias {
+					// a call under the alias name first (what it logs is discarded): the call under the real name
+					// that follows is described to the interceptors by its own name
+					actx, acancel := context.WithCancel(context.Background())
+					if ast, aerr := cc.NewStream(actx, &grpc.StreamDesc{ClientStreams: true, ServerStreams: true}, "/"+alias.ServiceName+"/"+o.StreamName); aerr == nil {
+						ast.SendMsg(&tpb.Message{Payload: []byte("req")})
+						ast.CloseSend()
+						adone := make(chan struct{})
+						go func() {
+							defer close(adone)
+							for ast.RecvMsg(new(tpb.Message)) == nil {
+							}
+						}()
+						select {
+						case <-adone:
+						case <-time.After(5 * time.Second):
+						}
+					}
+					acancel()
+					time.Sleep(time.Millisecond)
+					seen = nil
+					log.take()
+				}
 				ctx, cancel := context.WithCancel(context.Background())
 				cdesc := &grpc.StreamDesc{ClientStreams: o.ClientStreams, ServerStreams: o.ServerStreams}
 				if r.Intn(2) == 0 {
